@@ -391,7 +391,9 @@ def handle (line : String) : String :=
       let sm : Std.HashMap (Nat × Nat) Unit := pairs.foldl (fun m p => m.insert p ()) {}
       if t.all (fun c => im.contains c) && im.contains 10 then
         let env : Md.MdEnv := { info := fun c => im.getD c ⟨c, 0, 0, c⟩, susp := fun a b => sm.contains (a, b) }
-        s!"ok {(Md.messRatio env t thr).bits32}"
+        -- the answer, and (for the evidence file's distribution) the final per-plugin ratios
+        let fin := (t ++ [10]).foldl (fun (d : Md.Dets) c => d.feed env (env.info c)) ({} : Md.Dets)
+        s!"ok {(Md.messRatio env t thr).bits32} " ++ ",".intercalate (fin.ratios.map (fun (r : F32) => toString r.bits32))
       else "bad-op"
     | _, _, _, _ => "bad-op"
   | ["f32ofnat", n] => (match n.toNat? with | some n => s!"ok {(Fl.ofNat fmt32 n).bits32}" | none => "bad-op")
